@@ -82,6 +82,11 @@ def run(run):
         for tpl, kind in TEMPLATES:
             for _ in range(4 if tier_q else 40):
                 cases.append((d, tpl, kind, payload(run.rng, kind, d), payload(run.rng, kind, d)))
+            if kind == "lit1":
+                cases.append((d, tpl, kind, "it''s", ""))              # doubled delimiter, empty literal
+                cases.append((d, tpl, kind, "a\\'b", "''"))
+            elif kind == "lit2":
+                cases.append((d, tpl, kind, 'say ""hi""', "a\\\\"))
     lex, par, prt = [], [], []
     for d, tpl, kind, p1, p2 in cases:
         for p in (p1, p2):
@@ -89,6 +94,12 @@ def run(run):
             lex.append("LEX 0 7 " + stmt.cps(sqlgen_prepass(d, t)))
             par.append(sqlgen.parse_request("statements", d, t))
             prt.append(stmt.print_request("statements", d, d, t))
+    # comment-free baselines of the comment templates
+    base = {}
+    bkeys = sorted({(d, tpl) for d, tpl, kind, _, _ in cases if kind.startswith("c")})
+    bans = core.run_impl([sqlgen.parse_request("statements", d, strip_comments(tpl)) for d, tpl in bkeys])
+    for kx, a in zip(bkeys, bans):
+        base[kx] = a if a.startswith("OK") else None
     im = core.run_impl(lex + par + prt)
     mo = core.run_model(lex + par + prt)
     n = len(lex)
@@ -100,7 +111,9 @@ def run(run):
         a1, a2 = im[n + 2 * i], im[n + 2 * i + 1]
         r1 = im[2 * n + 2 * i]
         v = None
-        if l1.startswith("ERR") or l2.startswith("ERR"):
+        if kind.startswith("c") and base.get((d, tpl)) is not None and a1.startswith("OK") and a1 != base[(d, tpl)]:
+            v = "a comment changes the tree: with the comment %s, without it %s" % (a1[:120], base[(d, tpl)][:120])
+        elif l1.startswith("ERR") or l2.startswith("ERR"):
             v = "a quote-free payload makes the lexer reject the text (%s / %s)" % (l1[:40], l2[:40])
         elif masked_tokens(l1, kind, p1) != masked_tokens(l2, kind, p2):
             v = "token trees differ outside the quoted region"
@@ -134,6 +147,13 @@ def run(run):
         if "s:" + enc(w["expected_literal"]) not in a:
             run.known("%s: %s (witness %r in %s: the literal reaches the tree changed)" % (k["id"], k["description"], w["text"], w["dialect"]))
     stmt.conclude(run, proofs_ok, dis, fails, "Props/C06.v", "payload substitution oracle on the implementation")
+
+
+def strip_comments(tpl):
+    t = tpl.replace("$", "")
+    t = re.sub(r"/\*.*?\*/", " ", t, flags=re.S)
+    t = re.sub(r"(--|#)[^\n]*\n", " ", t)
+    return t
 
 
 def sqlgen_prepass(d, t):
